@@ -799,6 +799,34 @@ func (c *Ctx) cmdReaches(rule string, file string, ops []string, clause string) 
 				}
 			}
 			if op == nil {
+				// the operation applied through a local closure (`neighbors := func(t *tree.Tree) ..; neighbors(t.Tree)`)
+				for _, call := range callsIn(rs.Body, true) {
+					id, isId := call.Fun.(*ast.Ident)
+					if !isId || op != nil {
+						continue
+					}
+					v := identObj(info, id)
+					if v == nil {
+						continue
+					}
+					for _, d := range localDefs(info, fi.Decl.Body, v) {
+						fl, isLit := unparen(d).(*ast.FuncLit)
+						if !isLit {
+							continue
+						}
+						for _, inner := range callsIn(fl.Body, true) {
+							if g := calleeOf(info, inner); g != nil && inRepo(g) {
+								for _, o := range ops {
+									if g.Name() == o {
+										op = call
+									}
+								}
+							}
+						}
+					}
+				}
+			}
+			if op == nil {
 				return true
 			}
 			n++
